@@ -87,8 +87,26 @@ FamG == UNION {
      <<S0, << <<1, BLPop0>> >> \o Rob \o Rob \o << <<3, Unblock(1, "")>>, <<2, b2>>, <<4, BLPop0>>, <<3, PushA>>, <<3, PushA>>, <<3, LLenA>> >> >> }
    : b2 \in {BLPop0, BLMPop, BLMove} }
 
+\* H (C11): the waited-for list is fed by MOVES, not pushes: two waiters on the destination, two elements moved into it
+\* before the first woken waiter has popped (inside one EXEC, or with the first waiter held at after_wake) - the
+\* second move finds the destination non-empty and must still wake the second waiter
+BLPopB == C("BLPOP", <<kb, N(0)>>)
+BRPopB == C("BRPOP", <<kb, ka, N(0)>>)
+MoveAB == C("LMOVE", <<ka, kb, W("LEFT"), W("RIGHT")>>)
+RplAB == C("RPOPLPUSH", <<ka, kb>>)
+LLenB == C("LLEN", <<kb>>)
+SSrc == WithDb0(S0, (B("s") :> VList(<<x, y, x>>, 0)))
+MoveSB == C("LMOVE", <<B("s"), kb, W("LEFT"), W("RIGHT")>>)
+RplSB == C("RPOPLPUSH", <<B("s"), kb>>)
+FamH == UNION {
+   { <<SSrc, << <<1, BLPopB>>, <<2, b2>>, <<3, C("MULTI", <<>>)>>, <<3, mv>>, <<3, mv>>, <<3, C("EXEC", <<>>)>>, <<3, LLenB>> >> >>,
+     <<SSrc, << <<1, Gate("after_wake")>>, <<1, BLPopB>>, <<2, b2>>, <<3, mv>>, <<3, mv>>, <<1, Release>>, <<3, LLenB>> >> >>,
+     <<SSrc, << <<1, Gate("after_wake")>>, <<1, BLPopB>>, <<2, b2>>, <<3, mv>>, <<3, C("RPUSH", <<kb, y>>)>>, <<1, Release>>, <<3, LLenB>> >> >>,
+     <<SSrc, << <<1, Gate("after_wake")>>, <<1, BLPopB>>, <<2, b2>>, <<3, C("RPUSH", <<kb, y>>)>>, <<3, mv>>, <<1, Release>>, <<3, LLenB>> >> >> }
+   : b2 \in {BLPopB, BRPopB}, mv \in {MoveSB, RplSB} }
+
 NoStates == {}
 AnyB(h, st) == TRUE
-ProgsC11 == FamA \cup FamB \cup FamF \cup FamG
+ProgsC11 == FamA \cup FamB \cup FamF \cup FamG \cup FamH
 ProgsC12 == FamC \cup FamD \cup FamE
 =============================================================================
